@@ -8,7 +8,7 @@ same as for the implementation under test.
 import numpy
 
 
-def ref_fmin(func, x0, xtol=1e-4, ftol=1e-4, maxiter=None, maxfun=None, zdelt=0.00025):
+def ref_fmin(func, x0, xtol=1e-4, ftol=1e-4, maxiter=None, maxfun=None, zdelt=0.00025, adaptive=False):
     """scipy.optimize.fmin (Nelder-Mead).  returns dict(x, fval, iter, funcalls, warnflag, sims=[(sim, fsim) per iteration])"""
     ncalls = [0]
 
@@ -22,6 +22,9 @@ def ref_fmin(func, x0, xtol=1e-4, ftol=1e-4, maxiter=None, maxfun=None, zdelt=0.
     if maxfun is None:
         maxfun = N * 200
     rho = 1; chi = 2; psi = 0.5; sigma = 0.5
+    if adaptive:      # Gao & Han (2012), as in scipy.optimize.minimize(method='Nelder-Mead', options={'adaptive': True})
+        dim = float(N)
+        rho = 1; chi = 1 + 2 / dim; psi = 0.75 - 1 / (2 * dim); sigma = 1 - 1 / dim
     one2np1 = range(1, N + 1)
     sim = numpy.zeros((N + 1, N), dtype=x0.dtype)
     fsim = numpy.zeros((N + 1,), float)
